@@ -101,6 +101,9 @@ func JudgeAtLeastOnce(obs *Obs) (fs []Finding, info map[string]int) {
 			if k == "ticket" && r.Kind == "ticket" && d.Fields[k] == "SECRET4711" {
 				continue // extracted by a configuration that was loaded during the run
 			}
+			if k == "zone" && obs.Scenario.InputAddField && d.Fields[k] == "Z-"+r.Host {
+				continue // written by the input-level addFields step of such scenarios
+			}
 			if _, ok := wf[k]; !ok {
 				diff = append(diff, fmt.Sprintf("unexpected field %s=%q", k, cut(d.Fields[k])))
 			}
